@@ -168,9 +168,21 @@ func runErrPropagate(c *core.Ctx) {
 				}
 				isCondOnE := func(a ast.Node) bool { t, _ := nilTest(a); return t }
 				// a compound condition mentioning e (e != nil && ...) is not decided
+				// a comparison of e with a sentinel (e == ErrDone) is a dispatch on the error, like a switch on it
+				sentinelCmp := func(a ast.Node) bool {
+					ex, ok := a.(ast.Expr)
+					if !ok || !g.IsCondAtom(a) {
+						return false
+					}
+					be, ok := an.Unparen(ex).(*ast.BinaryExpr)
+					if !ok || (be.Op != token.EQL && be.Op != token.NEQ) {
+						return false
+					}
+					return (an.ObjOf(info, be.X) == ev && !isNilIdent(info, be.Y)) || (an.ObjOf(info, be.Y) == ev && !isNilIdent(info, be.X))
+				}
 				compound := false
 				for _, b2 := range g.CFG.Blocks {
-					if cd, _ := g.Cond(b2); cd != nil && !isCondOnE(cd) {
+					if cd, _ := g.Cond(b2); cd != nil && !isCondOnE(cd) && !sentinelCmp(cd) {
 						ast.Inspect(cd, func(m ast.Node) bool {
 							if id, ok := m.(*ast.Ident); ok && info.Uses[id] == ev {
 								compound = true
@@ -229,7 +241,8 @@ func runErrPropagate(c *core.Ctx) {
 					}
 					return false
 				}
-				settles := func(a ast.Node) bool { return isCondOnE(a) || returnsE(a) || switchOnE(a) }
+				dispatchOnE := func(a ast.Node) bool { return switchOnE(a) || sentinelCmp(a) }
+				settles := func(a ast.Node) bool { return isCondOnE(a) || returnsE(a) || dispatchOnE(a) }
 				// (1) never dropped
 				p := g.Search(an.Query{From: call, ToExit: true, Target: reassignsE, Avoid: settles})
 				if p.Found {
@@ -260,7 +273,7 @@ func runErrPropagate(c *core.Ctx) {
 							}
 							return false
 						},
-						Avoid: func(a ast.Node) bool { return returnsE(a) || switchOnE(a) || a == cd }})
+						Avoid: func(a ast.Node) bool { return returnsE(a) || dispatchOnE(a) || a == cd }})
 					if q.Found {
 						if q.Target != nil {
 							bad = "on the non-nil branch of the test at " + c.Prog.Rel(cd.Pos()) + " another operation is reachable (" + c.Prog.Rel(q.Target.Pos()) + ") without returning the error"
